@@ -1,12 +1,70 @@
-PROP = {
-    "suites": ["c18"],
-    "replay_suite": "c18",
-    "clauses": {},
-    "title": "Behaviour does not depend on storage aliasing or on which instance serves",
-    "text": "Theorems over the hand-written model (the same handler text under two interpreters of Model/Prog.v: run_seq = a storage that hands out copies, run_alias = a storage that holds the very objects, where an in-place write `Touch` rewrites the stored entry): alias_copy_equiv and alias_copy_equiv_state (for every configuration, client set and history of any length the two give the same observations and the same final storage contents and clock), step_alias_copy_equiv (one request from any state whose sessions have one index, e.g. after the embedder deleted a client), every_touch_written_through (the reason, and the property's last sentence: along every run of every handler each in-place write to a loaded session or grant is followed, before the response and before the table is consulted again, by a Save of the same id or by its deletion - the discipline `written_through` of Model/Alias.v), written_through_equiv and touch_free_equiv (the discipline, resp. the absence of in-place writes, suffices for any program), instance_independent / history_changes_hands / four_executions_agree (a request is served from the configuration and the state only; the history may be cut anywhere and continued by any instance built from the same configuration; the four executions the harness performs coincide in the model), aliasing_is_observable_without_write_through (the two interpreters do differ on a program that does not write through, so the equivalence is not vacuous), read_only_handlers_only_read / read_only_endpoints_keep_the_store / read_only_requests_keep_the_state (Model/ReadOnly.v: the handlers of introspection, userinfo and the two TokenInfo helpers perform lookups only - no Save, no Delete, no in-place write - so the state after such a request is the state before it under both interpreters, from any state). Correspondence: suite c18 replays each history - a corpus of the four defects this property found on the pinned tree (pushed redirect URI appended to the registration, outer parameters merged into the stored pushed session, refused refresh rewriting the stored grant, half-processed session left behind when its client is gone), a CIBA tour, and histories drawn by the online generator under four weight profiles (code/refresh, PAR/multi-step sessions, CIBA poll/ping/push, token life cycle) with static or stored clients, sometimes with a registration removed and restored in mid-history - as the same abstract operations under four executions of the real provider: {JSON-copying store, the repository's internal/storage} x {one provider instance, a fresh provider.New per request over the same storage, with its own static client objects}. The four projected traces and a canonical digest of the storage contents after every operation are compared pairwise on the Go side; every execution's trace is also compared with the model (run for the copy flavour, run_alias_trace for the alias flavour). DCR histories of suite c12's generator are replayed under the same four executions and compared on the Go side. State OUTSIDE the three storages that requests depend on (harness/suite_c18_remote.go, Go side only): the world answers the clients' jwks_uri, sector_identifier_uri, request_uri and CIBA notification endpoints from a table, and harness-level world events - like the client removal, not requests and not in the model's op type - change that table between requests: C18RotateKeys (jwks_uri publishes a new key under a new kid, the previous one is withdrawn), C18JwksAvailable (jwks_uri outage / recovery), C18SectorContents, C18SetRequestObject, C18NotifyEndpoint, plus the request kinds the generic world lacks: C18JarAuthorize / C18AuthorizeByRef (signed request object by value / fetched from request_uri), C18DcrCreate / Update / Get (registration of a private_key_jwt client with jwks_uri, optionally pairwise with sector_identifier_uri), C18JwtBearer (jwt-bearer grant without a client - the anonymous client built once per process - and with one). Clients (static AND stored; inline-jwks clients as a control) authenticate with private_key_jwt at /token, /par, /introspect, /revoke, /bc-authorize with the key published now, the key withdrawn by the last rotation, or a key never published. Directed histories (key rotation at every authenticated endpoint, a code flow and a refresh token straddling a rotation, request objects by value and by reference, CIBA ping with a failing notification endpoint, jwt-bearer with and without required client authentication, DCR with sector documents that change) and 64 generated ones (the generic online generator over such clients, cut into segments with a world event between two segments, some accepted credentials turned into the withdrawn key afterwards) are replayed under the four executions; expected and observed on the current tree: all four agree. What the comparison of answers cannot see (harness/suite_c18_claims.go, Go side): (1) the decoded claim set of EVERY JWT access token issued - token endpoint, authorization endpoint (implicit / hybrid), CIBA push notification - is part of the compared transcript: all claims, jti / iat / exp / nbf / auth_time / *_at by presence only, server-minted strings and registered client ids by the name the world gave them; a difference is <operation>:access_token_claims. Likewise every member of the JSON answers of introspection and userinfo (<operation>:answer_members), and the resources / aud of token answers. (2) Read-only endpoints must not write: before and after every request to introspection, userinfo, the TokenInfo helpers (also with the answer serialised by encoding/json, as a resource server would log it: C18TokenInfoJSON), discovery (C18Discovery) and jwks (C18Jwks) a deep snapshot - the JSON document of every stored authentication session, grant session and client, and of the configuration's static client objects - is taken, under the aliasing storage (an in-place write shows without any Save) and under the copying one (Save / Delete show); they must be equal: C18:read-only-endpoint-wrote:<endpoint>. The one member left out, with the reason in the code: `jwks` of a client that has a jwks_uri (the fetch cache the in-memory client manager clears on every lookup). (3) The storage digest compared between executions after every operation now includes, normalised the same way, the additional token / id token / userinfo claim maps, the embedder's store, the authorization details and the granted / active resources of every stored session and grant. (4) Inputs: directed histories code -> token -> [read-only block] -> refresh -> [block] -> refresh with narrowed scope -> [block] -> refused refresh -> widened -> client_credentials -> revoke -> [block], hybrid (the access token of the authorization endpoint, introspected again after the code was redeemed) and CIBA poll / push, each with JWT and with opaque access tokens, static and stored clients, rotation on / off, with and without the requests outside the model's op type; a read-only block = introspection of the access and of the refresh token by the owner, by another client, refused, by jti, userinfo, TokenInfo, TokenInfoFromRequest, serialised TokenInfo, discovery, jwks. Generator dimension (48 quick / 700 thorough histories): worlds whose clients all (or a random subset) issue JWT access tokens, the online generator run in segments with a burst of read-only requests about live tokens followed by a refresh between two segments. A quarter of them, and two corpus variants, run with an embedder whose HandleGrantFunc attaches token / id token / userinfo claims (nested values, numbers) to the GrantInfo it is handed, so that the claim maps are not empty.",
-    "note": "JWT claim sets, additional claim maps and the discovery / jwks endpoints are not in the model: oracles (1)-(3) above are Go side only; histories with C18Discovery / C18Jwks / C18TokenInfoJSON or with the claim-attaching embedder are not turned into cases for the model. KNOWN on the current tree and reported, therefore outside the default run (VERIF_C18_HYBRID_CLAIMS=1 includes it; signatures Token:store and Introspect:answer_members): in a hybrid flow the implicit grant stored by the authorization endpoint shares its three claim maps with the authentication session kept for the code (internal/authorize/authorize.go implicitGrantInfo); at code redemption the embedder's HandleGrantFunc is handed the same maps (internal/token/authz_code.go authorizationCodeGrantInfo), and what it adds shows in the stored implicit grant - and in the introspection answer of the first access token - under the aliasing storage only. Without the switch the worlds of the claim-attaching embedder have no hybrid flows (directed hybrid history left out, generated worlds whose clients have no hybrid response type). The model marks as in-place writes (Touch) the sites of DESIGN Appendix B that survive the fix: commits; the copy authnSessionWithPAR now makes is modelled pessimistically (the session started from a pushed request is treated as still aliased, and shown to be saved or deleted on every path). Not in the model, hence covered by the four-way replay only: DCR (Model/Dcr.v is a state machine without an aliasing interpreter), the jwt-bearer grant, private_key_jwt / jwks_uri clients, request objects, and every world event (key rotation, outage, changed remote documents): the model has no such operations, histories containing them or run in such worlds are compared on the Go side only. Outbound fetches of the provider (every ctx.HTTPClient() use): jwks_uri via JWKByKeyID / JWKByAlg (exercised: client assertions, request objects) and via jwkMatchingCert (self_signed_tls_client_auth: NOT exercised - same cache, same function FetchPublicJWKS), request_uri (exercised), sector_identifier_uri (exercised), the CIBA notification endpoint (exercised); encryption to client keys (id_token / userinfo / JARM encryption algorithms) is not exercised. State held by the instance / process: the static client objects of the configuration (exercised; found and fixed: d7a7b62, keys fetched from jwks_uri were cached on them for the life of the instance) and the anonymous jwt-bearer client, a package-level sync.Once: it is PROCESS-wide, a fresh provider.New in the harness process shares it, so the fresh-instance executions exercise the flow but cannot stand for another process there (all worlds use the same scope list, which is what that client captures). Nothing else on oidc.Configuration is written after provider.New. A difference on a static jwks_uri client after a rotation/outage between executions that differ in the instance assignment is reported under the one signature static-jwks_uri-client:keys-cached-for-the-life-of-the-instance (the defect d7a7b62 repaired); every other difference as <operation>:<field>. Error codes answered to forged tokens depend on the bytes of the forgery and are compared as refusals. Histories containing the embedder's client removal are compared on the Go side only (the model's op type has no such operation; step_alias_copy_equiv covers the states they reach).",
-    "technique": "Coq proof (relational: simulation between two interpreters of the same programs via a weakest-precondition calculus for the write-through discipline, lifted to all histories by induction with C17's one-index invariant) tied to the code by differential replay of generated histories under four executions and by correspondence with the model",
-    "design_ref": "DESIGN.md section 6, C18; section 10.2 (no_touch); Appendix B",
-    "assumptions": ["a storage implementation behaves either like the copying or like the aliasing reference store: lookups return the first match of a consistent snapshot, Save replaces by id, Delete removes by id",
-                    "instances are built from the same option list in the same process; the embedder's callbacks do not keep state of their own between requests"],
-}
+PROP = {'suites': ['c18'],
+ 'replay_suite': 'c18',
+ 'clauses': {},
+ 'title': 'Behaviour does not depend on storage aliasing or on which instance serves',
+ 'text': 'Theorems over the hand-written model (the same handler text under two interpreters of Model/Prog.v: run_seq = a storage that hands out copies, run_alias = a storage that holds the very '
+         'objects, where an in-place write `Touch` rewrites the stored entry): alias_copy_equiv and alias_copy_equiv_state (for every configuration, client set and history of any length the two give '
+         'the same observations and the same final storage contents and clock), step_alias_copy_equiv (one request from any state whose sessions have one index, e.g. after the embedder deleted a '
+         "client), every_touch_written_through (the reason, and the property's last sentence: along every run of every handler each in-place write to a loaded session or grant is followed, before "
+         'the response and before the table is consulted again, by a Save of the same id or by its deletion - the discipline `written_through` of Model/Alias.v), written_through_equiv and '
+         'touch_free_equiv (the discipline, resp. the absence of in-place writes, suffices for any program), instance_independent / history_changes_hands / four_executions_agree (a request is served '
+         'from the configuration and the state only; the history may be cut anywhere and continued by any instance built from the same configuration; the four executions the harness performs '
+         'coincide in the model), aliasing_is_observable_without_write_through (the two interpreters do differ on a program that does not write through, so the equivalence is not vacuous), '
+         'read_only_handlers_only_read / read_only_endpoints_keep_the_store / read_only_requests_keep_the_state (Model/ReadOnly.v: the handlers of introspection, userinfo and the two TokenInfo '
+         'helpers perform lookups only - no Save, no Delete, no in-place write - so the state after such a request is the state before it under both interpreters, from any state). Correspondence: '
+         'suite c18 replays each history - a corpus of the four defects this property found on the pinned tree (pushed redirect URI appended to the registration, outer parameters merged into the '
+         'stored pushed session, refused refresh rewriting the stored grant, half-processed session left behind when its client is gone), a CIBA tour, and histories drawn by the online generator '
+         'under four weight profiles (code/refresh, PAR/multi-step sessions, CIBA poll/ping/push, token life cycle) with static or stored clients, sometimes with a registration removed and restored '
+         "in mid-history - as the same abstract operations under four executions of the real provider: {JSON-copying store, the repository's internal/storage} x {one provider instance, a fresh "
+         'provider.New per request over the same storage, with its own static client objects}. The four projected traces and a canonical digest of the storage contents after every operation are '
+         "compared pairwise on the Go side; every execution's trace is also compared with the model (run for the copy flavour, run_alias_trace for the alias flavour). DCR histories of suite c12's "
+         'generator are replayed under the same four executions and compared on the Go side. State OUTSIDE the three storages that requests depend on (harness/suite_c18_remote.go, Go side only): the '
+         "world answers the clients' jwks_uri, sector_identifier_uri, request_uri and CIBA notification endpoints from a table, and harness-level world events - like the client removal, not requests "
+         "and not in the model's op type - change that table between requests: C18RotateKeys (jwks_uri publishes a new key under a new kid, the previous one is withdrawn), C18JwksAvailable (jwks_uri "
+         'outage / recovery), C18SectorContents, C18SetRequestObject, C18NotifyEndpoint, plus the request kinds the generic world lacks: C18JarAuthorize / C18AuthorizeByRef (signed request object by '
+         'value / fetched from request_uri), C18DcrCreate / Update / Get (registration of a private_key_jwt client with jwks_uri, optionally pairwise with sector_identifier_uri), C18JwtBearer '
+         '(jwt-bearer grant without a client - the anonymous client built once per process - and with one). Clients (static AND stored; inline-jwks clients as a control) authenticate with '
+         'private_key_jwt at /token, /par, /introspect, /revoke, /bc-authorize with the key published now, the key withdrawn by the last rotation, or a key never published. Directed histories (key '
+         'rotation at every authenticated endpoint, a code flow and a refresh token straddling a rotation, request objects by value and by reference, CIBA ping with a failing notification endpoint, '
+         'jwt-bearer with and without required client authentication, DCR with sector documents that change) and 64 generated ones (the generic online generator over such clients, cut into segments '
+         'with a world event between two segments, some accepted credentials turned into the withdrawn key afterwards) are replayed under the four executions; expected and observed on the current '
+         'tree: all four agree. What the comparison of answers cannot see (harness/suite_c18_claims.go, Go side): (1) the decoded claim set of EVERY JWT access token issued - token endpoint, '
+         'authorization endpoint (implicit / hybrid), CIBA push notification - is part of the compared transcript: all claims, jti / iat / exp / nbf / auth_time / *_at by presence only, '
+         'server-minted strings and registered client ids by the name the world gave them; a difference is <operation>:access_token_claims. Likewise every member of the JSON answers of introspection '
+         'and userinfo (<operation>:answer_members), and the resources / aud of token answers. (2) Read-only endpoints must not write: before and after every request to introspection, userinfo, the '
+         'TokenInfo helpers (also with the answer serialised by encoding/json, as a resource server would log it: C18TokenInfoJSON), discovery (C18Discovery) and jwks (C18Jwks) a deep snapshot - the '
+         "JSON document of every stored authentication session, grant session and client, and of the configuration's static client objects - is taken, under the aliasing storage (an in-place write "
+         'shows without any Save) and under the copying one (Save / Delete show); they must be equal: C18:read-only-endpoint-wrote:<endpoint>. The one member left out, with the reason in the code: '
+         '`jwks` of a client that has a jwks_uri (the fetch cache the in-memory client manager clears on every lookup). (3) The storage digest compared between executions after every operation now '
+         "includes, normalised the same way, the additional token / id token / userinfo claim maps, the embedder's store, the authorization details and the granted / active resources of every stored "
+         'session and grant. (4) Inputs: directed histories code -> token -> [read-only block] -> refresh -> [block] -> refresh with narrowed scope -> [block] -> refused refresh -> widened -> '
+         'client_credentials -> revoke -> [block], hybrid (the access token of the authorization endpoint, introspected again after the code was redeemed) and CIBA poll / push, each with JWT and '
+         "with opaque access tokens, static and stored clients, rotation on / off, with and without the requests outside the model's op type; a read-only block = introspection of the access and of "
+         'the refresh token by the owner, by another client, refused, by jti, userinfo, TokenInfo, TokenInfoFromRequest, serialised TokenInfo, discovery, jwks. Generator dimension (48 quick / 700 '
+         'thorough histories): worlds whose clients all (or a random subset) issue JWT access tokens, the online generator run in segments with a burst of read-only requests about live tokens '
+         'followed by a refresh between two segments. A quarter of them, and two corpus variants, run with an embedder whose HandleGrantFunc attaches token / id token / userinfo claims (nested '
+         'values, numbers) to the GrantInfo it is handed, so that the claim maps are not empty.',
+ 'note': 'JWT claim sets, additional claim maps and the discovery / jwks endpoints are not in the model: oracles (1)-(3) above are Go side only; histories with C18Discovery / C18Jwks / '
+         'C18TokenInfoJSON or with the claim-attaching embedder are not turned into cases for the model. FOUND AND FIXED (defect D26, fix ae6db20): in a hybrid flow the implicit grant stored by the '
+         "authorization endpoint shared its three claim maps with the authentication session kept for the code (implicitGrantInfo); what the embedder's HandleGrantFunc added at code redemption "
+         'showed in the stored implicit grant and in the introspection of the first access token under the aliasing storage only. The hybrid histories of the claim-attaching embedder are part of the '
+         'default run now; with the fix reverted they are reported (signatures Token:store, Introspect:answer_members). The model marks as in-place writes (Touch) the sites of DESIGN Appendix B that '
+         'survive the fix: commits; the copy authnSessionWithPAR now makes is modelled pessimistically (the session started from a pushed request is treated as still aliased, and shown to be saved '
+         'or deleted on every path). Not in the model, hence covered by the four-way replay only: DCR (Model/Dcr.v is a state machine without an aliasing interpreter), the jwt-bearer grant, '
+         'private_key_jwt / jwks_uri clients, request objects, and every world event (key rotation, outage, changed remote documents): the model has no such operations, histories containing them or '
+         'run in such worlds are compared on the Go side only. Outbound fetches of the provider (every ctx.HTTPClient() use): jwks_uri via JWKByKeyID / JWKByAlg (exercised: client assertions, '
+         'request objects) and via jwkMatchingCert (self_signed_tls_client_auth: NOT exercised - same cache, same function FetchPublicJWKS), request_uri (exercised), sector_identifier_uri '
+         '(exercised), the CIBA notification endpoint (exercised); encryption to client keys (id_token / userinfo / JARM encryption algorithms) is not exercised. State held by the instance / '
+         'process: the static client objects of the configuration (exercised; found and fixed: d7a7b62, keys fetched from jwks_uri were cached on them for the life of the instance) and the anonymous '
+         'jwt-bearer client, a package-level sync.Once: it is PROCESS-wide, a fresh provider.New in the harness process shares it, so the fresh-instance executions exercise the flow but cannot stand '
+         'for another process there (all worlds use the same scope list, which is what that client captures). Nothing else on oidc.Configuration is written after provider.New. A difference on a '
+         'static jwks_uri client after a rotation/outage between executions that differ in the instance assignment is reported under the one signature '
+         'static-jwks_uri-client:keys-cached-for-the-life-of-the-instance (the defect d7a7b62 repaired); every other difference as <operation>:<field>. Error codes answered to forged tokens depend '
+         "on the bytes of the forgery and are compared as refusals. Histories containing the embedder's client removal are compared on the Go side only (the model's op type has no such operation; "
+         'step_alias_copy_equiv covers the states they reach).',
+ 'technique': 'Coq proof (relational: simulation between two interpreters of the same programs via a weakest-precondition calculus for the write-through discipline, lifted to all histories by '
+              "induction with C17's one-index invariant) tied to the code by differential replay of generated histories under four executions and by correspondence with the model",
+ 'design_ref': 'DESIGN.md section 6, C18; section 10.2 (no_touch); Appendix B',
+ 'assumptions': ['a storage implementation behaves either like the copying or like the aliasing reference store: lookups return the first match of a consistent snapshot, Save replaces by id, Delete '
+                 'removes by id',
+                 "instances are built from the same option list in the same process; the embedder's callbacks do not keep state of their own between requests"]}
